@@ -2,6 +2,7 @@ import heapq
 import os
 import secrets
 import sqlite3
+import time
 from dataclasses import dataclass
 from datetime import datetime, timedelta
 from typing import Iterable, Iterator, List, Optional, Tuple
@@ -373,8 +374,17 @@ class IDManager:
 
         with closing(self.conn.cursor()) as cursor:
             # Set some options.
-            cursor.execute("PRAGMA journal_mode=WAL")
             cursor.execute("PRAGMA busy_timeout = 30000")
+            # Switching to WAL does not wait for the busy timeout: it fails at once when
+            # another process is opening the same database at the same moment. Retry.
+            for attempt in range(3000):
+                try:
+                    cursor.execute("PRAGMA journal_mode=WAL")
+                    break
+                except sqlite3.OperationalError:
+                    if attempt == 2999:
+                        raise
+                    time.sleep(0.01)
             # Make sure we have tables for all ID namespaces.
             for id_space in IDSpace.all_values():
                 namespace = id_space.namespace_name()
